@@ -6,7 +6,8 @@ use rtcm_rs::util::{ArrayString, Df88591String};
 fn latin1(c: char) -> u8 { let k = c as u32; if (1..=255).contains(&k) { k as u8 } else { 0xa4 } }
 
 fn pool(rng: &mut crate::Rng, n: usize) -> String {
-    let alphabet: [char; 16] = ['a', 'Z', '0', ' ', '\u{0}', '\u{7f}', '\u{80}', '\u{a4}', '\u{e9}', '\u{ff}', '\u{100}', '\u{3b1}', '\u{20ac}', '\u{4e2d}', '\u{1f600}', '\u{10ffff}'];
+    let alphabet: [char; 24] = ['a', 'Z', '0', ' ', '\u{0}', '\u{7f}', '\u{80}', '\u{a4}', '\u{e9}', '\u{ff}', '\u{100}', '\u{3b1}', '\u{20ac}', '\u{4e2d}', '\u{1f600}', '\u{10ffff}',
+        '\u{141}', '\u{1e9}', '\u{10000}', '\u{10041}', '\u{2004e}', '\u{100ff}', '\u{ffff}', '\u{10001}'];
     (0..n).map(|_| alphabet[rng.below(alphabet.len())]).collect()
 }
 
